@@ -1010,6 +1010,10 @@ class _ColumnsParsedFmt:
             result.min_w = -1
             result.max_w = -1
         elif width_fmt:
+            if width_fmt.endswith(')') and '(' in width_fmt:
+                # "3-10(7)": the actual width of the column, reported by
+                # ReprColumn.to_fmt_str, is informational only
+                width_fmt = width_fmt[:width_fmt.index('(')].strip()
             chunks = width_fmt.split('-')
             if len(chunks) > 2:
                 raise ValueError(f"Invalid width range: '{width_fmt}'")
